@@ -504,7 +504,7 @@ def run(ctx):
     from .lib import coqio
     from .lib.runner import Outcome, Failure
     rng = ctx.rng
-    n_deb, n_cf = ctx.budget(24, 240), ctx.budget(4, 30)
+    n_deb, n_cf = ctx.budget(20, 240), ctx.budget(3, 30)
     cases = [dict(c) for c in ctx.corpus()]
     while sum(c["worker"] == "debug" for c in cases) < n_deb:
         cases.append(gen_case(rng, "debug"))
